@@ -232,6 +232,73 @@ def cmd_stage2(d):
             print("%s %s:%d [%s] %s" % ("KILLED  " if rec["killed_by_checks"] else "SURVIVED", r["file"], r["line"], r["op"], verdict), flush=True)
 
 
+SRC_PLAN = {"fmt.rs": ["C06"], "as.rs": ["C14"], "convert.rs": ["C11", "C12"], "str.rs": ["C13"], "try_unwrap.rs": ["C11"], "add.rs": ["C10"], "ops.rs": ["C10"],
+            "vendor/thiserror/aserror.rs": ["C09"]}
+
+
+def src_mutants(repo):
+    src = os.path.join(repo, "src")
+    for rel in sorted(SRC_PLAN):
+        f = os.path.join(src, rel)
+        for i, l in code_lines(f):
+            code = l.split(" //")[0]
+            for name, rx, rep in OPS:
+                for k, m in enumerate(re.finditer(rx, code)):
+                    new = code[:m.start()] + m.expand(rep) + code[m.end():] + l[len(code):]
+                    if new != l:
+                        yield {"file": "src/" + rel, "line": i + 1, "op": name, "k": k, "old": l.strip(), "new": new.strip(), "_new_line": new, "_rel": rel}
+
+
+def cmd_src(d):
+    """Mutants of the hand-written run-time helpers of the facade crate (/repo/src): no expansion changes, so each one is
+    judged by the run-time check of the property it serves (scratch copy of the repository, its own target directory)."""
+    repo = os.path.join(d, "repo_src")
+    shutil.rmtree(repo, ignore_errors=True)
+    sh(["rsync", "-a", "--exclude", "target", "--exclude", ".git", "/repo/", repo + "/"])
+    e = dict(os.environ)
+    e.update(VERIF_REPO=repo, VERIF_TARGET=os.path.join(d, "vt_src"), VERIF_WORK=os.path.join(d, "vw_src"), VERIF_OUT=os.path.join(d, "vout_src"))
+    out_path = os.path.join(d, "src_results.jsonl")
+    done = set()
+    if os.path.exists(out_path):
+        for l in open(out_path):
+            r = json.loads(l)
+            done.add((r["file"], r["line"], r["op"], r["k"]))
+    # baseline must be green
+    for chk in sorted({c for v in SRC_PLAN.values() for c in v}):
+        p = sh(["python3", os.path.join(VERIF, "run_check.py"), chk, "--tier", "quick"], env=e)
+        if p.returncode != 0:
+            sys.exit("baseline %s is not green in the scratch copy: rc=%s\n%s" % (chk, p.returncode, p.stdout[-2000:]))
+    ms = list(src_mutants("/repo"))
+    print("src mutants:", len(ms), flush=True)
+    with open(out_path, "a") as out:
+        for m in ms:
+            key = (m["file"], m["line"], m["op"], m["k"])
+            if key in done:
+                continue
+            path = os.path.join(repo, "src", m["_rel"])
+            orig = open(path).read()
+            lines = orig.split("\n")
+            lines[m["line"] - 1] = m["_new_line"]
+            open(path, "w").write("\n".join(lines))
+            verdict = {}
+            try:
+                b = sh(["cargo", "check", "--offline", "-q", "--features", "full"], cwd=repo, env=dict(e, CARGO_TARGET_DIR=os.path.join(d, "vt_src", "precheck"), CARGO_NET_OFFLINE="true"))
+                if b.returncode != 0:
+                    status = "nocompile"
+                else:
+                    for chk in SRC_PLAN[m["_rel"]]:
+                        p = sh(["python3", os.path.join(VERIF, "run_check.py"), chk, "--tier", "quick"], env=e)
+                        verdict[chk] = p.returncode
+                    status = "killed" if any(v == 1 for v in verdict.values()) else ("survived" if all(v == 0 for v in verdict.values()) else "machinery")
+            finally:
+                open(path, "w").write(orig)
+            rec = {k: v for k, v in m.items() if not k.startswith("_")}
+            rec.update(status=status, checks=verdict)
+            out.write(json.dumps(rec) + "\n")
+            out.flush()
+            print("%-9s %s:%d [%s] %s -> %s %s" % (status.upper(), m["file"], m["line"], m["op"], m["old"][:70], m["new"][:70], verdict), flush=True)
+
+
 def cmd_report(d):
     rs = [json.loads(l) for l in open(os.path.join(d, "results.jsonl"))]
     import collections
@@ -251,6 +318,8 @@ if __name__ == "__main__":
         cmd_corpus(sys.argv[2])
     elif cmd == "run":
         cmd_run(sys.argv[2], *(sys.argv[3:4]))
+    elif cmd == "src":
+        cmd_src(sys.argv[2])
     elif cmd == "stage2":
         cmd_stage2(sys.argv[2])
     elif cmd == "report":
